@@ -154,13 +154,27 @@ def gen_hist(r, bc, cf, bs, al, style):
             elif t < 94 and bc > 1:
                 m = r.range(1, 4); ops.append('i%d:%d:%d' % (p, m, r.below(m))); live[p] -= live[p] // m
             elif t < 96 and bc > 1: ops.append('x%d' % p); live[p] = 0
-            elif t >= 96: M(p, 1 - p)
+            elif t >= 98: M(p, 1 - p)
+            elif t >= 97: ops.append('s'); live[0], live[1] = live[1], live[0]
+            elif t >= 96 and live[p] == 0: ops.append('v%d%d' % (p, 1 - p)); live[p] = live[1 - p]; live[1 - p] = 0
     elif style == 3:    # blocks left in the cache, DeallocateAll, allocate again (a stale cache head must not be handed out)
         A(0, r.range(1, bc + 3)); A(1, r.range(0, 3))
         F(0, r.range(1, max(1, min(live[0], cf if cf else 2))), how=r.below(3))
         ops.append('x0'); live[0] = 0
         A(0, r.range(1, bc + 2)); F(0, r.range(0, live[0])); A(0, r.range(0, 3))
         if r.chance(1, 2): ops.append('x0'); live[0] = 0; A(0, 2)
+    elif style == 4:    # blocks in the cache, then Swap / move assignment, then allocate from the (moved) cache
+        A(0, r.range(1, bc + 3)); A(1, r.range(0, bc + 1))
+        F(0, r.range(1, max(1, min(live[0], cf if cf else 2))), how=r.below(3))
+        if r.chance(1, 2):
+            ops.append('s'); live[0], live[1] = live[1], live[0]
+            A(0, r.range(1, 4)); A(1, r.range(1, 4))
+        else:
+            F(1, live[1], how=r.below(3))                      # the destination of a move assignment must have no allocated block
+            ops.append('v10'); live[1] = live[0]; live[0] = 0
+            A(1, r.range(1, 4)); A(0, r.range(0, 3))
+        F(0, r.range(0, live[0])); F(1, r.range(0, live[1]))
+        if r.chance(1, 3): ops.append('s'); live[0], live[1] = live[1], live[0]; A(0, 2)
     else:               # fill k buffers (+-1 block), free all but a few blocks, merge, refill
         A(0, r.range(1, 3) * bc + r.choice([-1, 0, 1])); A(1, r.range(1, 3) * bc + r.choice([-1, 0, 1]))
         F(0, r.range(0, live[0] - 1), how=2); F(1, r.range(0, live[1] - 1), how=2)
@@ -179,12 +193,12 @@ def hist_cases(ctx, scale, n):
     aimed = [(bc, cf, bs, al) for bc in BCS for cf in CFS for (bs, al) in ((1, 1), (8, 8), (24, 8), (17, 16), (300, 1024), (3, 2))]
     aimed += [(bc, r.choice(CFS), r.choice([1, 8, al, 40]), al) for bc in (1, 1, 2, 32) for al in ODD_ALIGNS]   # non-power-of-two alignments
     for (bc, cf, bs, al) in aimed:
-        for style in (0, 2, 3) if bc > 1 else (1,):
+        for style in (0, 2, 3, 4) if bc > 1 else (1, 4):
             cs.append(gen_hist(r, bc, cf, bs, al, style))
     while len(cs) < n:
         bc = r.choice(BCS); cf = r.choice(CFS); bs = r.range(1, 300); al = r.choice(ALIGNS if r.chance(2, 3) else ODD_ALIGNS)
         if bc == 127 and r.chance(1, 2): bc = r.choice([2, 3, 31, 32])
-        cs.append(gen_hist(r, bc, cf, bs, al, r.below(4) if bc > 1 else 1))
+        cs.append(gen_hist(r, bc, cf, bs, al, r.below(5) if bc > 1 else r.choice([1, 1, 4])))
     return cs
 
 
